@@ -24,7 +24,8 @@ def tainted_programs(draw):
             pos = 1
         while pos < len(tree.body) and isinstance(tree.body[pos], ast.ImportFrom) and tree.body[pos].module == '__future__':
             pos += 1
-        tree.body.insert(pos, ast.ImportFrom(module=draw(st.sampled_from(['os', 'helpers', 'a.b'])), names=[ast.alias(name='*', asname=None)], level=0))
+        mod, lvl = draw(st.sampled_from([('os', 0), ('helpers', 0), ('a.b', 0), (None, 1), (None, 2), ('sibling', 1), ('pkg.mod', 2)]))
+        tree.body.insert(pos, ast.ImportFrom(module=mod, names=[ast.alias(name='*', asname=None)], level=lvl))
         trig, kind = 'import *', 'star-import'
     else:
         loads = [n for n in ast.walk(tree) if isinstance(n, ast.Name) and isinstance(n.ctx, ast.Load)]
